@@ -78,6 +78,15 @@ class _Canon(ast.NodeTransformer):
             return ast.copy_location(d, node)
         return node
 
+    def visit_Dict(self, node: ast.Dict):
+        self.generic_visit(node)
+        # `**{}` inside a dict display adds nothing
+        keep = [(k, v) for k, v in zip(node.keys, node.values) if not (k is None and isinstance(v, ast.Dict) and not v.keys)]
+        if len(keep) != len(node.keys):
+            node.keys = [k for k, _v in keep]
+            node.values = [v for _k, v in keep]
+        return node
+
     def visit_UnaryOp(self, node: ast.UnaryOp):
         self.generic_visit(node)
         r = _neg_compare(node)
@@ -498,6 +507,9 @@ def _unroll_table_loops(tree: ast.Module, known: set) -> None:
                 elts = None
                 if isinstance(it, ast.Name) and it.id in tables:
                     elts = tables[it.id].elts
+                elif isinstance(it, (ast.Tuple, ast.List, ast.Set)) and 0 < len(it.elts) <= 6 and all(isinstance(e, ast.Constant) for e in it.elts) \
+                        and (not isinstance(it, ast.Set) or len(it.elts) == 1):
+                    elts = it.elts  # a loop over a short display of constants is the sequence of its iterations
                 tg = st.target
                 tnames = [tg.id] if isinstance(tg, ast.Name) else ([e.id for e in tg.elts] if isinstance(tg, ast.Tuple) and all(isinstance(e, ast.Name) for e in tg.elts) else None)
                 inner = [x for b_ in st.body for x in ast.walk(b_)]
